@@ -57,14 +57,16 @@ def run(v, tier, seed):
         bf = W("beh%s.ndjson" % tag); rep = W("rep%s.ndjson" % tag)
         vlib.write_ndjson(bf, [{"id": i, "steps": s} for i, s in enumerate(beh)])
         code, out, err = vlib.run([rc_bin, "pool", bf, str(n), str(maxpool), rep], timeout=600)
-        if code != 0: raise vlib.MachineryError("rc pool failed rc=%s: %s %s" % (code, out[-300:], err[-2500:]))
+        if code != 0:
+            vlib.harness_failed(v, code, out, err, "rc pool N=%d MaxPool=%d" % (n, maxpool), "poolcrash")
+            return "PoolImpl N=%d MaxPool=%d" % (n, maxpool), r, [{"summary": True, "behaviours": 0, "followed": 0, "steps": 0}], beh[0]
         return "PoolImpl N=%d MaxPool=%d" % (n, maxpool), r, vlib.read_ndjson(rep), beh[len(beh) // 2]
 
     def explore(iters, nt, nops, ntraces):
         rep = W("ex.ndjson"); tr = W("trace.ndjson")
         code, out, err = vlib.run([rc_bin, "explore", str(iters), str(nt), str(nops), str(seed), rep, tr, str(ntraces)], timeout=(1200 if tier == "quick" else 3400))
-        if code in (66, 67) or "ERROR: AddressSanitizer" in err or "runtime error:" in err:
-            return None, err
+        if code in (66, 67) or "ERROR: AddressSanitizer" in err or "runtime error:" in err or vlib.crashed(code):
+            return None, "[exit %s] " % code + err
         if code != 0: raise vlib.MachineryError("rc explore failed rc=%s: %s %s" % (code, out[-300:], err[-1500:]))
         r = vlib.tlc("RefTrace", "Trace.cfg", "RefPool", workers=1, timeout=1800, env={"TRACE": tr}, keep_out=True)
         accepted = (r.violated == "NotAccepted")
@@ -73,10 +75,19 @@ def run(v, tier, seed):
         first = [l.strip() for i, l in zip(range(16), open(tr))]
         return (vlib.read_ndjson(rep), accepted, maxline, tr, first), None
 
+    def stress(seconds, nt):
+        rep = W("stress.ndjson")
+        code, out, err = vlib.run([rc_bin, "stress", str(seconds), str(nt), str(seed), rep], timeout=seconds + 120)
+        if code != 0:
+            vlib.harness_failed(v, code, out, err, "rc stress (free-running threads)", "stress")
+            return [{"summary": True, "rounds": 0}]
+        return vlib.read_ndjson(rep)
+
     iters = 3000 if tier == "quick" else 60000
     with cf.ThreadPoolExecutor(max_workers=6) as ex:
         jobs = [ex.submit(ref_mc, 2, 3)] + ([ex.submit(ref_mc, 3, 3)] if tier == "thorough" else [])
         pools = [ex.submit(pool, n, mp) for (n, mp) in ([(2, 0), (2, 1), (2, 3), (3, 2)] if tier == "quick" else [(2, 0), (2, 1), (2, 3), (3, 0), (3, 2), (3, 4)])]
+        f_st = ex.submit(stress, 3 if tier == "quick" else 60, 3)
         f_ex = ex.submit(explore, iters, 3 if tier == "quick" else 4, 14, 500 if tier == "quick" else 4000)
         for f in jobs:
             tag, r = f.result(); tot["states"] += r.distinct; tot["transitions"] += r.generated
@@ -93,6 +104,9 @@ def run(v, tier, seed):
                 elif x.get("drift"):
                     v.drift += 1
                     if v.drift <= 3: vlib.log("DRIFT property=C10 %s behaviour %s: %s" % (tag, x.get("behaviour"), x["drift"][:300]))
+        st_rows = f_st.result(); st_rounds = [x for x in st_rows if x.get("summary")][0]["rounds"]
+        for x in st_rows:
+            if x.get("violations"): v.violation("free-running threads (no scheduler): " + "; ".join(x["violations"]), x, tag="stress")
         res, san = f_ex.result()
         if san is not None:
             v.violation("sanitizer report while threads share references to pooled objects: " + san[:1500].replace("\n", " | "), {"stderr": san[:6000], "cmd": "rc explore %d ... seed %d" % (iters, seed)}, tag="asan")
@@ -109,11 +123,11 @@ def run(v, tier, seed):
                 v.violation("recorded execution is not a behaviour of the abstract reference-count machine: first unexplained line %s of %s" % (maxline, tr), {"trace": tr, "line": maxline}, tag="trace")
     cov = {"states": tot["states"], "transitions": tot["transitions"], "traces_validated_against_impl": tot["followed"] + summ["traces_written"],
            "pool_behaviours_replayed": tot["behaviours"], "pool_behaviours_followed_exactly": tot["followed"], "pool_replay_steps": tot["steps"],
-           "random_executions": summ["executions"], "scheduling_decisions": summ["yields"], "trace_lines_validated_by_tlc": summ["trace_lines"], "objects_obtained": summ["objects"],
+           "random_executions": summ["executions"], "scheduling_decisions": summ["yields"], "trace_lines_validated_by_tlc": summ["trace_lines"], "objects_obtained": summ["objects"], "free_running_rounds": st_rounds,
            "evaluations": tot["behaviours"] + summ["executions"], "distinct_nontrivial": tot["followed"],
            "rule": "pool behaviours = path cover of EVERY transition of PoolImpl's state graph for each (objects per slab, max pool size) pair, distinct by construction, non-trivial = followed exactly to the end; random executions = 3-4 threads x 14 reference operations under seeded schedules in the ASan build",
            "exhaustive": True, "model_runs": mc_notes, "samples": samples[:5]}
     assumptions = ["sequential consistency: the scheduler serialises threads at every AtomicCounter operation and Mutex operation; weak-memory effects are out of scope",
                    "a Ref object itself is only used by one thread at a time or under a Mutex (the library's documented contract); sharing is of the referenced objects",
-                   "std::atomic and std::mutex are trusted"]
+                   "std::atomic and std::mutex are trusted; what happens INSIDE one AtomicCounter operation is only exercised by the free-running stress stage (real threads dropping the last references at the same moment), which samples, it does not enumerate"]
     return "model_checking", cov, assumptions
